@@ -21,11 +21,11 @@ func GetSliceStartEndForLiquidations(sliceLen, offset, batchSize int) (int, int)
 		return sliceLen, sliceLen
 	}
 	start := offset
-	end := offset + batchSize
-	if end >= sliceLen {
+	// compare without adding: offset + batchSize can overflow for large batch sizes
+	if batchSize >= sliceLen-offset {
 		return start, sliceLen
 	}
-	return start, end
+	return start, offset + batchSize
 }
 
 // Validate validates ActiveFarmer.
